@@ -18,6 +18,7 @@ func init() {
 const lpp = "(*internal/ingest.LineProtocolParser)."
 
 func runC01(c *Ctx) {
+	validFillRule(c, "C01.MERGE")
 	p := c.P
 	c.Rule("C01.ESC", "WHO: in the line-protocol parser no byte/string search or split primitive (Index*, Split*, Cut, Fields, Contains*) is called with a delimiter from the escapable set {comma, space, equals, quote, backslash} (read from unescape's own switch) — separators are located only by the escape-aware scanners (splitOnDelimiterQuoted, indexUnescaped), whose delimiter comparison sits on the not-escaped branch of their backslash test")
 	c.Rule("C01.QUOTE", "FLOW: the measurement/tag section is split with quote tracking off (a double quote is only special around a string field value); quote tracking is used only for the text after the first unescaped space and for the field list")
